@@ -1688,3 +1688,137 @@ pub fn find_reflection(source: &[u8], ranges: &[(usize, usize, &'static str)], h
     }
     None
 }
+
+// ------------------------------------------------------------------------------------------
+// end to end: the real daemon `ServerTask` on a loopback UDP socket
+// ------------------------------------------------------------------------------------------
+
+pub struct E2e {
+    rt: tokio::runtime::Runtime,
+    pub addr: std::net::SocketAddr,
+    pub stats: ntpd::verif::m::server::ServerStats,
+    sock: std::net::UdpSocket,
+    task: tokio::task::JoinHandle<()>,
+    _keys_tx: tokio::sync::watch::Sender<Arc<KeySet>>,
+    sentinel_ctr: u64,
+    /// datagrams sent so far (test datagrams + sentinels), for the counter oracle
+    pub sent: u64,
+}
+
+const SENTINEL_TAG: u64 = 0x5e4e_7100_0000_0000;
+
+impl E2e {
+    /// Starts the real `ServerTask` for this configuration on 127.0.0.1. The configuration must
+    /// answer a plain 48-byte NTPv4 request from 127.0.0.1 with *something* (time or DENY): that
+    /// request is used as an ordering sentinel so that no verdict ever depends on a timeout.
+    pub fn start(cfg: &CfgSpec, info: NtpServerInfo, keyset: Arc<KeySet>, now: u64, port_seed: u64) -> Result<E2e, String> {
+        use ntpd::verif::m::{config::ServerConfig as DaemonCfg, server::{ServerStats, ServerTask}};
+        let rt = tokio::runtime::Builder::new_multi_thread().worker_threads(1).enable_all().build().map_err(|e| e.to_string())?;
+        let real = cfg.to_config()?;
+        for attempt in 0..30u64 {
+            let port = 20000 + ((port_seed.wrapping_add(attempt.wrapping_mul(7919))) % 40000) as u16;
+            let listen = std::net::SocketAddr::new(IpAddr::V4(Ipv4Addr::LOCALHOST), port);
+            match std::net::UdpSocket::bind(listen) {
+                Ok(s) => drop(s),
+                Err(_) => continue,
+            }
+            let dcfg = DaemonCfg {
+                listen,
+                denylist: real.denylist.clone(),
+                allowlist: real.allowlist.clone(),
+                rate_limiting_cache_size: real.rate_limiting_cache_size,
+                rate_limiting_cutoff: real.rate_limiting_cutoff,
+                require_nts: real.require_nts,
+                accept_ntp_versions: real.accepted_versions.clone(),
+            };
+            let clock = SimClock(Arc::new(AtomicU64::new(now)));
+            let (server, _) = build_server(cfg, info, keyset.clone(), clock)?;
+            let stats = ServerStats::default();
+            let (tx, rx) = tokio::sync::watch::channel(keyset.clone());
+            let task = {
+                let _g = rt.enter();
+                ServerTask::spawn(server, dcfg, stats.clone(), rx, Duration::from_millis(20))
+            };
+            let sock = std::net::UdpSocket::bind("127.0.0.1:0").map_err(|e| e.to_string())?;
+            sock.set_read_timeout(Some(Duration::from_millis(40))).map_err(|e| e.to_string())?;
+            let mut e = E2e { rt, addr: listen, stats, sock, task, _keys_tx: tx, sentinel_ctr: 0, sent: 0 };
+            // wait for the socket to be open: sentinels until one is answered
+            let mut up = false;
+            for _ in 0..200 {
+                let tag = match e.send_sentinel() {
+                    Ok(t) => t,
+                    Err(_) => {
+                        std::thread::sleep(Duration::from_millis(10));
+                        continue;
+                    }
+                };
+                let mut buf = [0u8; 2048];
+                match e.sock.recv_from(&mut buf) {
+                    Ok((n, _)) if n >= 32 && buf[24..32] == tag.to_be_bytes() => {
+                        up = true;
+                        break;
+                    }
+                    Ok(_) => {}
+                    // ICMP port unreachable while the task has not opened its socket yet
+                    Err(_) => std::thread::sleep(Duration::from_millis(10)),
+                }
+            }
+            if up {
+                // drain late answers to earlier sentinels
+                e.sock.set_read_timeout(Some(Duration::from_millis(30))).ok();
+                let mut buf = [0u8; 2048];
+                while e.sock.recv_from(&mut buf).is_ok() {}
+                e.sock.set_read_timeout(Some(Duration::from_secs(3))).ok();
+                return Ok(e);
+            }
+            // could not get it up on this port (taken in the meantime?): try the next one
+            e.task.abort();
+            return Err("server task did not answer the sentinel (configuration must answer a plain v4 request from 127.0.0.1)".into());
+        }
+        Err("no free UDP port found".into())
+    }
+
+    fn send_sentinel(&mut self) -> Result<u64, String> {
+        self.sentinel_ctr += 1;
+        let tag = SENTINEL_TAG | self.sentinel_ctr;
+        let d = RefHeader::request(4, 6, tag).encode();
+        self.sock.send_to(&d, self.addr).map_err(|e| e.to_string())?;
+        self.sent += 1;
+        Ok(tag)
+    }
+
+    /// Sends one datagram followed by a sentinel and returns every datagram that came back
+    /// before the sentinel's answer (the server task handles its socket in order).
+    /// Returns (answers to the datagram, the sentinel's answer).
+    pub fn exchange(&mut self, d: &[u8]) -> Result<(Vec<Vec<u8>>, Vec<u8>), String> {
+        self.sock.send_to(d, self.addr).map_err(|e| format!("send: {e}"))?;
+        self.sent += 1;
+        let tag = self.send_sentinel()?;
+        let mut got = Vec::new();
+        let mut buf = [0u8; 4096];
+        loop {
+            match self.sock.recv_from(&mut buf) {
+                Ok((n, from)) => {
+                    if from != self.addr {
+                        continue;
+                    }
+                    if n >= 32 && buf[24..32] == tag.to_be_bytes() && !(d.len() >= 48 && d[40..48] == tag.to_be_bytes()) {
+                        return Ok((got, buf[..n].to_vec()));
+                    }
+                    got.push(buf[..n].to_vec());
+                }
+                Err(e) => return Err(format!("no sentinel answer within 3 s: {e}")),
+            }
+        }
+    }
+
+    pub fn counters(&self) -> [u64; 11] {
+        ntpd::verif::srvx::stats_vector(&self.stats)
+    }
+}
+
+impl Drop for E2e {
+    fn drop(&mut self) {
+        self.task.abort();
+    }
+}
